@@ -9,6 +9,7 @@ CONSTANTS
   MaxFaults = 1
   AllowStop = FALSE
   AllowCancel = FALSE
+  AllowHalf = FALSE
   Reconnect = TRUE
   MaxAttempts = 2
   FixExitOrder = TRUE
